@@ -206,3 +206,26 @@ def write_replay(ctx: Ctx, o: Obligation) -> str:
             indent=1,
         )
     return path
+
+
+class Relabel:
+    """Report a shared rule under another property's rule id."""
+
+    def __init__(self, ctx, rule):
+        self._c = ctx
+        self._r = rule
+
+    def __getattr__(self, n):
+        return getattr(self._c, n)
+
+    def ok(self, rule, *a):
+        return self._c.ok(self._r, *a)
+
+    def fail(self, rule, *a, **k):
+        return self._c.fail(self._r, *a, **k)
+
+    def check(self, cond, rule, *a, **k):
+        return self._c.check(cond, self._r, *a, **k)
+
+    def floor(self, rule, *a):
+        return self._c.floor(self._r, *a)
